@@ -1,0 +1,44 @@
+//go:build verif
+
+package storage
+
+// Contracts for the verifier in /verif (comment-only file; no declarations).
+
+// ---- C12: reservoir trap-all ----
+
+//@ func storageTrapAll(inflowMass, storageInflow, storageOutflow, storageVolume, initialStoredMass, trappedMass, outflowMass) returns (rStored)
+//@   noalias
+//@   safety C12
+//@   requires inflowMass.len >= 1 && trappedMass.len == inflowMass.len && outflowMass.len == inflowMass.len
+//@   requires forall(k, 0, outflowMass.len, outflowMass.at(k) == 0)
+//@   assigns trappedMass.cells
+//@   ensures [C12.trapall-first] trappedMass.at(0) == inflowMass.at(0) + initialStoredMass
+//@   ensures [C12.trapall-rest] forall(k, 1, inflowMass.len, trappedMass.at(k) == inflowMass.at(k))
+//@   ensures [C12.trapall-nothing-leaves] rStored == 0 && forall(k, 0, outflowMass.len, outflowMass.at(k) == 0)
+
+// ---- C12: reservoir dissolved constituent, decay disabled: delegates to the lumped transport ----
+
+//@ func storageDissolvedDecay(inflowMass, storageInflow, storageOutflow, storageVolume, initialStoredMass, deltaT, doStorageDecay, annualReturnInterval, bankFullFlow, medianFloodResidenceTime, decayedMass, outflowMass) returns (rStored)
+//@   noalias
+//@   safety C12
+//@   requires doStorageDecay < 0.5
+//@   requires inflowMass.len == storageOutflow.len && inflowMass.len == storageVolume.len && inflowMass.len == outflowMass.len
+//@   requires forall(k, 0, inflowMass.len, inflowMass.at(k) >= 0 && storageOutflow.at(k) >= 0 && storageVolume.at(k) >= 0)
+//@   requires deltaT > 0 && initialStoredMass >= 0
+//@   assigns outflowMass.cells, decayedMass.cells
+//@   ensures [C12.dissolved-nodecay-nonneg] rStored >= 0
+
+// ---- C12: reservoir particulate trapping ----
+
+//@ func storageParticulateTrapping(inflowMass, storageInflow, storageOutflow, storageVolume, initialStoredMass, deltaT, reservoirCapacity, reservoirLength, subtractor, multiplier, lengthDischargeFactor, lengthDischargePower, trappedMass, outflowLoad) returns (rStored)
+//@   noalias
+//@   safety C12
+//@   requires inflowMass.len == storageInflow.len && inflowMass.len == storageOutflow.len && inflowMass.len == storageVolume.len && inflowMass.len == trappedMass.len && inflowMass.len == outflowLoad.len
+//@   requires forall(k, 0, inflowMass.len, inflowMass.at(k) >= 0 && storageInflow.at(k) >= 0 && storageOutflow.at(k) >= 0 && storageVolume.at(k) >= 0)
+//@   requires deltaT > 0 && initialStoredMass >= 0 && reservoirCapacity > 0 && lengthDischargeFactor > 0
+//@   assigns trappedMass.cells, outflowLoad.cells
+//@   loop 0 invariant 0 <= i && i <= n
+//@   loop 0 invariant implies(i < n, inflowMass.at(i) >= 0 && storageInflow.at(i) >= 0 && storageOutflow.at(i) >= 0 && storageVolume.at(i) >= 0)
+//@   loop 0 invariant [C12.trapping-nonneg] storedMass >= 0
+//@   loop 0 step [C12.trapping-balance] pre(storedMass) + inflowMass.at(i)*deltaT == post(storedMass) + trappedMass.at(i) + outflowLoad.at(i)*deltaT
+//@   loop 0 step [C12.trapping-bounds] 0 <= trappedMass.at(i) && trappedMass.at(i) <= inflowMass.at(i)*deltaT && outflowLoad.at(i) >= 0
